@@ -81,6 +81,24 @@ CHECKS = {
              'classes are diagnosed causally (each leaf re-serialized alone).',
         note='Trusted: json.loads(parse_constant=reject) as RFC 8259 oracle; vf.canon lossless labels.',
         design='§3 C09'),
+    'C10': dict(
+        category='exploration',
+        technique='round-trip monitor over (old, new) pairs produced by an abstract-DAG edit '
+                  'generator; canonical-form equality of the patched copy with new; frame '
+                  'conditions on diff / new / old; empty-diff check',
+        text='Held on generated pairs for every edit class (evidence lists counts per class), '
+             'identity-sharing pairs and unrelated pairs.',
+        note="Trusted: vf.canon 'cfg-exact'; copy.deepcopy or an independent re-realisation as the copy of old.",
+        design='§3 C10'),
+    'C11': dict(
+        category='exploration',
+        technique='generated auto_config programs, each executed three ways (undecorated, '
+                  'decorated, as_buildable+build) under the invocation trace; results compared '
+                  'by canonical form with every partial probed',
+        text='Per-program validation over the generator grammar (DESIGN Appendix B); programs '
+             'outside that grammar are not covered.',
+        note='Trusted: the undecorated Python execution is the specification.',
+        design='§3 C11'),
     'C03': dict(
         category='exploration',
         technique='lock-step reference-model monitor (ArgModel) over generated edit histories '
